@@ -28,7 +28,7 @@ MANIFEST = dict(
         "(pca_small_sample_agrees, pca_small_sample_agrees_model), encoded training data have covariance diag(eigenvalues) (pca_encoded_covariance); "
         "LDA: with z_c*C = m_c the installed linear discriminant ranks classes exactly like the Gaussian log-posterior with shared covariance C "
         "(lda_bayes_rule), statistics batch independent (lda_batch_independent); weighted LDA statistics are invariant under scaling all weights "
-        "(weights_scale_invariant). "
+        "(weights_scale_invariant); FisherLDA's global mean sum_c n_c m_c / n is the mean of the inputs (fisher_mean; the pinned source divides twice, F-C15-6). "
         "The model (Model/Trainers.lean) is tied to the real trainers on every run by a differential correspondence on integer datasets with explicit "
         "batch partitions: values the model determines are compared EXACTLY when FE_INEXACT stayed clear during the Shark call and with relative "
         "tolerance 1e-11 otherwise; results behind sqrt / the pivoted Cholesky solver / the eigen-solver are checked against their specification "
@@ -38,14 +38,14 @@ MANIFEST = dict(
   note=TRUST + "NOT proved: the specifications of sqrt/log/eigen-solver/pivoted Cholesky (hypotheses, checked at "
        "run time on the returned values), that ZCA's Q*D^(-1/2)*Q^T satisfies the factor specification, lda_bayes_rule (LDA is covered by the "
        "correspondence only: class means, pooled covariance, solve specification, bias vs log prior), FisherLDA (not modelled), floating-point rounding. "
-       "PCA whitening and toleranced comparisons are behind the eigen-solver (toleranced mode). Findings F-C15-1..5 (findings_proposed/C15.md): the check "
+       "PCA whitening and toleranced comparisons are behind the eigen-solver (toleranced mode). Findings F-C15-1..8 (findings_proposed/C15.md): the check "
        "reports VIOLATION on the unpatched tree and is green on a tree with findings_proposed/C15.patch applied.",
   technique="Lean 4 proofs over exact rational arithmetic (all sizes, dimensions, batch partitions) + differential correspondence with the C++ trainers (ASan/UBSan, FE_INEXACT-gated exact comparison)",
   design="§6 C15")
 
 FINISH = dict(level="proof",
               rule="one op = one trainer call on an integer dataset with an explicit batch partition (SplitMix64 stream): "
-                   "meanvar, unitvar, unitint, linreg, whiten, zca, pca, lda, wlda; a case is non-trivial if it has >1 batch, "
+                   "meanvar, unitvar, unitint, linreg, whiten, zca, pca, lda, wlda, fisher; a case is non-trivial if it has >1 batch, "
                    "a constant column, rank deficiency or d>n; distinct = distinct op text")
 
 ENV = {"OPENBLAS_NUM_THREADS": "1", "OMP_NUM_THREADS": "1"}
@@ -172,6 +172,18 @@ def gen_case(r, ctx, op, part=None, n=None):
         ctx.hist("lda_reg", f"{reg_num}/2^{reg_shift}")
         part = part or gen_partition(r, n)
         return f"{op} {reg_num} {reg_shift} " + table(n, d, part, rows)
+    if op == "fisher":
+        classes = r.choice([2, 2, 3, 4])
+        n, d, rows = gen_matrix(r, ctx, n=n or r.choice([classes + 2, 6, 8, 9, 12, 16]), d=r.choice([2, 3, 3, 4, 5]), allow_wide=False)
+        labels = [i % classes for i in range(n)] if r.chance(4, 5) else [r.below(classes) for _ in range(n)]
+        labels[:classes] = list(range(classes))                   # every class occurs
+        for i, row in enumerate(rows):
+            for j in range(d): row[j] += labels[i] * ((j % 2) * 2 - 1) * (j + 1) if r.chance(3, 4) else 0
+            row.append(labels[i])
+        dims = r.choice([0, 1, min(classes - 1, d), min(classes, d)])
+        if dims == 0 and classes > d and not r.chance(1, 3): dims = d       # default dimension = #classes > d: F-C15-8
+        part = part or gen_partition(r, n)
+        return f"fisher {r.below(2)} {dims} " + table(n, d, part, rows)
     raise ValueError(op)
 
 
@@ -249,9 +261,9 @@ def parse_op(line):
     """-> (head tokens, n, d, extra, sizes, rows) of an op line"""
     t = line.split()
     op = t[0]
-    nhead = {"meanvar": 1, "unitint": 1, "unitvar": 2, "linreg": 4, "whiten": 3, "zca": 3, "pca": 4, "lda": 3, "wlda": 3}[op]
+    nhead = {"meanvar": 1, "unitint": 1, "unitvar": 2, "linreg": 4, "whiten": 3, "zca": 3, "pca": 4, "lda": 3, "wlda": 3, "fisher": 3}[op]
     head = t[:nhead]
-    extra = int(t[3]) if op == "linreg" else 1 if op == "lda" else 2 if op == "wlda" else 0
+    extra = int(t[3]) if op == "linreg" else 1 if op in ("lda", "fisher") else 2 if op == "wlda" else 0
     n, d, nb = int(t[nhead]), int(t[nhead + 1]), int(t[nhead + 2])
     sizes = [int(x) for x in t[nhead + 3:nhead + 3 + nb]]
     vals = [int(x) for x in t[nhead + 3 + nb:]]
@@ -288,7 +300,7 @@ def shrink(ctx, exes, drv, line, same):
             if n > 1:
                 rr = rows[:i] + rows[i + 1:]
                 cands.append(build_op(head, d, [n - 1], rr))
-        if head[0] not in ("lda", "wlda"):
+        if head[0] not in ("lda", "wlda", "fisher"):
             for j in range(d):
                 if d > 1:
                     cands.append(build_op(head, d - 1, sizes, [r[:j] + r[j + 1:] for r in rows]))
@@ -324,6 +336,15 @@ def classify(r):
     if op == "pca" and "pca-nonfinite-model" in r.oracle and r.op.split()[1] == "1":
         return ("F-C15-3b:pca-whitening-zero-variance",
                 f"PCA encoder/decoder with whitening divide by sqrt(0) when all points coincide: `{r.op}`", True)
+    if op == "fisher" and ("fisher-mean" in r.oracle or "fisherlda-mean" in r.model):
+        return ("F-C15-6:fisherlda-mean-divided-twice",
+                f"FisherLDA::meanAndScatter divides the global mean by the number of inputs twice: `{r.op}` -> {r.model[:160]}", bool(r.oracle))
+    if op == "fisher" and "fisher-direction-not-stationary" in r.oracle:
+        return ("F-C15-7:fisherlda-nonsymmetric-eigenproblem",
+                f"FisherLDA feeds the non-symmetric Sw^-1*Sb to the symmetric eigen-solver; returned directions do not satisfy Sb*w = lambda*Sw*w: `{r.op}`", True)
+    if op == "fisher" and r.crash:
+        return ("F-C15-8:fisherlda-default-dimension",
+                f"FisherLDA with the default subspace dimension (= number of classes) > input dimension reads past the eigenvector matrix: `{r.op}`", True)
     if op == "lda" and "lda-n-equals-classes" in r.model:
         return ("F-C15-4:lda-n-equals-classes",
                 f"LDA divides the scatter matrix by n - classes = 0: `{r.op}` -> {r.impl[:80]}", True)
@@ -387,7 +408,7 @@ def build(ctx):
     # two executables built one after the other: at most 3 compiler jobs at a time
     a = ctx.harness("c15", ["c15.cpp"], repo_sources=["src/Algorithms/LinearRegression.cpp",
                                                       "src/Algorithms/NormalizeComponentsWhitening.cpp"])
-    b = ctx.harness("c15b", ["c15b.cpp"], repo_sources=["src/Algorithms/PCA.cpp", "src/Algorithms/LDA.cpp", "src/Core/Random.cpp"])
+    b = ctx.harness("c15b", ["c15b.cpp"], repo_sources=["src/Algorithms/PCA.cpp", "src/Algorithms/LDA.cpp", "src/Algorithms/FisherLDA.cpp", "src/Core/Random.cpp"])
     return {"a": a, "b": b}
 
 
@@ -420,7 +441,7 @@ def run(ctx):
     ctx.cov["corpus_cases"] = len(corpus)
     per = 400 if ctx.quick else 4000
     lines = list(corpus)
-    for op in ("meanvar", "unitvar", "unitint", "linreg", "whiten", "zca", "pca", "lda", "wlda"):
+    for op in ("meanvar", "unitvar", "unitint", "linreg", "whiten", "zca", "pca", "lda", "wlda", "fisher"):
         lines += [gen_case(r, ctx, op) for _ in range(per)]
         for _ in range(3 if ctx.quick else 30):
             allp = gen_all_partitions(r, ctx, op)
